@@ -1,27 +1,127 @@
 (** C02 — queue hand-off fidelity: message and envelope reach qmail-queue unaltered.
     Statements only; proofs in Proofs/DataProofs.v, SessionProofs.v, TraceProofs.v. *)
 From Qv Require Import Common.Bytes Gen.GenNetio Gen.GenSession Model.NetRead Model.Session Model.Trace
-  Spec.LineSpec Spec.SessionSpec Proofs.NetReadProofs Proofs.DataProofs Proofs.SessionProofs Proofs.TraceProofs.
+  Spec.LineSpec Spec.SessionSpec Proofs.NetReadProofs Proofs.DataProofs Proofs.SessionProofs Proofs.TraceProofs Proofs.HandoffMsg.
 
 (** Message: when smtp_data reaches the terminating dot ([D_eod]), what was written to qmail-queue is the
     trace header followed by exactly the client's data lines [seen], in order, each with CRLF turned into LF and
-    one leading dot removed ([stored]); [seen] are precisely the lines the client transmitted before the lone dot
-    ([wire seen ++ ".CRLF"] is what was consumed from the connection), none of them contains CR or LF or is
-    the lone dot.  For every reader state, byte stream and segmentation. *)
+    one leading dot removed ([stored]) - in submission mode (TCPLOCALPORT 587, [d_subm]) with the added fields
+    ([subm_fields], see C02_submission_additions) between the last header line and the empty line that starts the body,
+    and nothing else anywhere; on every other port nothing at all is added.  [seen] are precisely the lines the client
+    transmitted before the lone dot ([wire seen ++ ".CRLF"] is what was consumed from the connection), none of them
+    contains CR or LF or is the lone dot; [hdr_part seen] are the lines before the first empty one, [body_part seen]
+    the rest.  For every reader state, byte stream and segmentation. *)
 Theorem C02_message : forall fuel o dc r trace msg sz seen r',
   rstate_ok r -> data_loop fuel o dc r trace = (D_eod msg sz seen, r') ->
-  msg = trace ++ stored seen
+  msg = trace ++ stored (hdr_part seen) ++ (if d_subm dc then subm_fields (par_of dc) (hdr_part seen) else []) ++ stored (body_part seen)
+  /\ hdr_part seen ++ body_part seen = seen
+  /\ (d_subm dc = false -> msg = trace ++ stored seen)
   /\ total r = wire seen ++ [DOT; CR; LF] ++ total r'
   /\ Forall data_line seen.
 Proof.
   intros fuel o dc r trace msg sz seen r' Hok H.
-  pose proof (data_loop_spec fuel o dc r trace _ r' Hok H) as X. cbn in X. tauto.
+  pose proof (data_loop_spec fuel o dc r trace _ r' Hok H) as X. cbn in X.
+  destruct X as (Hm & Ht & Hall & _).
+  split; [exact Hm|]. split; [apply hdr_body_part|]. split; [|tauto].
+  intros Hs. rewrite Hm. now rewrite (queued_off (par_of dc) seen Hs).
 Qed.
 Print Assumptions C02_message.
 
-(** the checker that judges the message of every hand-off of the IMPLEMENTATION in the correspondence runs accepts the model *)
+(** Submission mode: what is added is exactly the missing ones of the three fields, in the order Date, From,
+    Message-Id, each at most once, each a single line:
+      "Date: " <date of the Received: line> LF          unless a header line starts with "Date:" (any case)
+      "From: <" <sender of MAIL FROM> ">" LF            unless a header line starts with "From:"
+      "Message-Id: <" <sec.usec> "@" <msgidhost> ">" LF unless a header line starts with "Message-Id:"
+    where "header line" is a line before the first empty line that, as transmitted, does not start with a dot
+    ([field_present]; see C02_submission_full_refuted for lines that do).  The literal pieces are regenerated from
+    qsmtpd/data.c (Gen/GenSession.v).  With all three present, and on every other port, nothing is added. *)
+Theorem C02_submission_additions : forall fuel o dc r trace msg sz seen r',
+  rstate_ok r -> data_loop fuel o dc r trace = (D_eod msg sz seen, r') ->
+  let hdr := hdr_part seen in
+  exists add, msg = trace ++ stored hdr ++ add ++ stored (body_part seen)
+    /\ (d_subm dc = false -> add = [])
+    /\ (d_subm dc = true ->
+        add = (if field_present s_hdr_date hdr then [] else SUBM_DATE_PFX ++ d_date dc ++ [LF])
+              ++ (if field_present s_hdr_from hdr then [] else SUBM_FROM_PFX ++ d_from dc ++ SUBM_FROM_END)
+              ++ (if field_present s_hdr_msgid hdr then [] else SUBM_MSGID_PFX ++ d_stamp dc ++ SUBM_MSGID_AT ++ d_idhost dc ++ SUBM_MSGID_END))
+    /\ (field_present s_hdr_date hdr = true -> field_present s_hdr_from hdr = true -> field_present s_hdr_msgid hdr = true -> add = []).
+Proof.
+  intros fuel o dc r trace msg sz seen r' Hok H hdr.
+  pose proof (data_loop_spec fuel o dc r trace _ r' Hok H) as X. cbn in X. destruct X as (Hm & _).
+  exists (if d_subm dc then subm_fields (par_of dc) hdr else []). split; [exact Hm|].
+  split; [intros ->; reflexivity|]. split; [intros ->; reflexivity|].
+  intros H1 H2 H3. unfold subm_fields. rewrite H1, H2, H3. destruct (d_subm dc); reflexivity.
+Qed.
+Print Assumptions C02_submission_additions.
+
+(** the pieces are what RfC 5322 calls them; the sender the From field carries is the one of the transaction:
+    smtp_data is run with [d_from] = xmitstat.mailfrom, [d_subm] = (port is 587) - by definition of h_data, see
+    C02_handoff_message *)
+Theorem C02_submission_constants :
+  SUBM_PORT = [53; 56; 55]%N /\ HDR_PATTERNS = [s_hdr_date; s_hdr_from; s_hdr_msgid]
+  /\ SUBM_DATE_PFX = [68; 97; 116; 101; 58; 32]%N /\ SUBM_FROM_PFX = [70; 114; 111; 109; 58; 32; 60]%N /\ SUBM_FROM_END = [62; LF]%N
+  /\ SUBM_MSGID_PFX = [77; 101; 115; 115; 97; 103; 101; 45; 73; 100; 58; 32; 60]%N /\ SUBM_MSGID_AT = [64]%N /\ SUBM_MSGID_END = [62; LF]%N.
+Proof. repeat split. Qed.
+Print Assumptions C02_submission_constants.
+
+(** THE PROPERTY AS STATED ("... when the client omitted them") judges the omission on the submitted message, i.e. on
+    the header lines as they are stored ([field_stored] in [queued_full]).  This does NOT hold: a header line transmitted
+    with a needless leading dot (".Date: x", which every receiver must store as "Date: x", RfC 5321 4.5.2) is skipped by
+    the header checks of smtp_data, so the field counts as missing and a second one is added. *)
+Definition C02_submission_full : Prop := forall fuel o dc r trace msg sz seen r',
+  rstate_ok r -> data_loop fuel o dc r trace = (D_eod msg sz seen, r') -> msg = trace ++ queued_full (par_of dc) seen.
+
+Theorem C02_submission_full_refuted : ~ C02_submission_full.
+Proof.
+  intros F.
+  pose (o := {| o_helo := fun _ => true; o_addr := fun _ _ => AP_nobracket; o_ext := fun _ => Ext_einval; o_relay := 0%Z; o_mx := fun _ => 0;
+                o_qq := fun _ => QQ_ok; o_databytes := 0%N; o_liphost := []; o_check2822 := false; o_authperm := false;
+                o_auth := fun _ => Auth_multi; o_trace := fun _ _ _ _ _ _ => [];
+                o_submission := true; o_subm_date := []; o_subm_stamp := []; o_msgidhost := [] |}).
+  pose (dc := {| d_wfail := false; d_chk := false; d_dt := false; d_rcpts := []; d_subm := true;
+                 d_date := [88]%N; d_from := [102]%N; d_stamp := [49]%N; d_idhost := [104]%N |}).
+  (* the client sends  .Date: x CRLF . CRLF *)
+  pose (r := {| inn := []; en := {| cur := []; future := [[46; 68; 97; 116; 101; 58; 32; 120; 13; 10; 46; 13; 10]%N] |} |}).
+  assert (Hok : rstate_ok r) by (unfold rstate_ok; cbn; apply Nat.le_0_l).
+  let res := eval vm_compute in (data_loop 10 o dc r []) in
+  match res with
+  | (D_eod ?m ?sz ?sn, ?r') =>
+      assert (E : data_loop 10 o dc r [] = (D_eod m sz sn, r')) by (vm_compute; reflexivity);
+      pose proof (F 10 o dc r [] m sz sn r' Hok E) as X; vm_compute in X; discriminate X
+  end.
+Qed.
+Print Assumptions C02_submission_full_refuted.
+
+(** ... and it holds for every message outside that class: no header line hides one of the three names behind a leading dot *)
+Theorem C02_submission_partial : forall fuel o dc r trace msg sz seen r',
+  rstate_ok r -> data_loop fuel o dc r trace = (D_eod msg sz seen, r') ->
+  hidden_field (hdr_part seen) = false -> msg = trace ++ queued_full (par_of dc) seen.
+Proof.
+  intros fuel o dc r trace msg sz seen r' Hok H Hc.
+  pose proof (data_loop_spec fuel o dc r trace _ r' Hok H) as X. cbn in X. destruct X as (Hm & _).
+  rewrite Hm. now rewrite (queued_full_eq (par_of dc) seen (or_intror Hc)).
+Qed.
+Print Assumptions C02_submission_partial.
+
+(** The whole session: EVERY hand-off of every session, for all oracles, client byte streams and segmentations, is an
+    envelope F<f>NUL... (written from the server's sender [f] and recipient list [rc]; C02_envelope says they are the open
+    transaction) together with a message that is a trace header followed by the client's data lines [seen] of that DATA
+    command - on the submission port ([o_submission]) with the missing ones of Date, From, Message-Id added behind the last
+    header line, the From field carrying that same sender [f]; on every other port with nothing added ([queued_off]).
+    [par_s o f] = (submission mode of the session, date, f, time stamp, msgidhost). *)
+Theorem C02_handoff_message : forall o chunks env msg, In (Handoff env msg) (run_session o chunks) ->
+  exists f rc trace seen,
+    env = envelope (o_liphost o) f rc
+    /\ msg = trace ++ queued (par_s o f) seen
+    /\ Forall data_line seen.
+Proof. exact session_handoff_message. Qed.
+Print Assumptions C02_handoff_message.
+
+(** the checker that judges the message of every hand-off of the IMPLEMENTATION in the correspondence runs (the property
+    as stated: [queued_full]) accepts the model on every port other than 587, and on 587 outside the class above *)
 Theorem C02_message_checker_sound : forall fuel o dc r trace msg sz seen r',
-  rstate_ok r -> data_loop fuel o dc r trace = (D_eod msg sz seen, r') -> handoff_msg_ok seen msg = true.
+  rstate_ok r -> data_loop fuel o dc r trace = (D_eod msg sz seen, r') ->
+  d_subm dc = false \/ hidden_field (hdr_part seen) = false -> handoff_msg_ok (par_of dc) seen msg = true.
 Proof. exact handoff_msg_sound. Qed.
 Print Assumptions C02_message_checker_sound.
 
@@ -49,11 +149,27 @@ Theorem C02_trace_spf_none : forall heloname dom, no_crlf_b heloname = true -> n
 Proof. exact spf_none_field_shape. Qed.
 Print Assumptions C02_trace_spf_none.
 
+(** submission port, relay client: Date and Message-Id are missing and added, From is there (upper case) and kept *)
+Example C02_nonvacuous_submission :
+  let o := {| o_helo := fun _ => true;
+              o_addr := fun _ arg => match arg with 60%N :: c :: _ => AP_ok [c] None RLocal | _ => AP_nobracket end;
+              o_ext := fun _ => Ext_ok 0 0 None; o_relay := 1%Z; o_mx := fun _ => 0; o_qq := fun _ => QQ_ok;
+              o_databytes := 0%N; o_liphost := []; o_check2822 := false; o_authperm := false; o_auth := fun _ => Auth_multi; o_trace := fun _ _ _ _ _ _ => [88; 10]%N;
+              o_submission := true; o_subm_date := [100]%N; o_subm_stamp := [49; 46; 50]%N; o_msgidhost := [104]%N |} in
+  filter (fun e => match e with Handoff _ _ => true | _ => false end)
+    (run_session o [ [72;69;76;79;32;120;13;10]; [77;65;73;76;32;70;82;79;77;58;60;97;62;13;10];
+                     [82;67;80;84;32;84;79;58;60;98;62;13;10]; [68;65;84;65;13;10];
+                     [70;82;79;77;58;120;13;10;13;10;104;13;10;46;13;10] ]%N)
+  = [Handoff [70;97;0;84;98;0;0]%N
+       ([88;10] ++ [70;82;79;77;58;120;10] ++ ([68;97;116;101;58;32;100;10] ++ [77;101;115;115;97;103;101;45;73;100;58;32;60;49;46;50;64;104;62;10]) ++ [10;104;10])%N].
+Proof. vm_compute. reflexivity. Qed.
+
 Example C02_nonvacuous :
   let o := {| o_helo := fun _ => true;
               o_addr := fun _ arg => match arg with 60%N :: c :: _ => AP_ok [c] None RLocal | _ => AP_nobracket end;
               o_ext := fun _ => Ext_ok 0 0 None; o_relay := 0%Z; o_mx := fun _ => 0; o_qq := fun _ => QQ_ok;
-              o_databytes := 0%N; o_liphost := []; o_check2822 := false; o_authperm := false; o_auth := fun _ => Auth_multi; o_trace := fun _ _ _ _ _ _ => [88; 10]%N |} in
+              o_databytes := 0%N; o_liphost := []; o_check2822 := false; o_authperm := false; o_auth := fun _ => Auth_multi; o_trace := fun _ _ _ _ _ _ => [88; 10]%N;
+              o_submission := false; o_subm_date := []; o_subm_stamp := []; o_msgidhost := [] |} in
   filter (fun e => match e with Handoff _ _ => true | _ => false end)
     (run_session o [ [72;69;76;79;32;120;13;10]; [77;65;73;76;32;70;82;79;77;58;60;97;62;13;10];
                      [82;67;80;84;32;84;79;58;60;98;62;13;10]; [68;65;84;65;13;10];
